@@ -188,7 +188,8 @@ class _Gen:
                 n["params"]["vo"] = v
                 vin[name] = v
                 f[name] = self.frac(fmax)
-                vout[name] = v * (1 - f[name])
+                # (overload regime: f may exceed 1; nominal voltages stay positive)
+                vout[name] = v * max(1 - f[name], 0.05)
                 continue
             vi = vout[n["parents"][0]]
             vin[name] = vi
@@ -223,7 +224,7 @@ class _Gen:
                 vout[name] = out
             else:  # RLoss VLoss PSwitch PMux Rectifier
                 f[name] = self.frac(fmax)
-                out = abs(vi) * (1 - f[name])
+                out = abs(vi) * max(1 - f[name], 0.05)
                 vout[name] = out if (k == "Rectifier" or vi >= 0) else -out
         # loads: nominal currents
         iin, iout = {}, {}
